@@ -285,6 +285,14 @@ class Gen:
             tag = f"limit:stack:{n}"
             if len(spk) > 10000:
                 spk = b"\x51" * n + b"\x51"
+            if r.random() < 0.5:
+                # the limit crossed for one instruction only, and by a *data push* (0x01..0x4e), an OP_n or an operator in turn:
+                # Core counts after every opcode, so going over 1000 fails even when the next opcode comes back under it
+                base = r.choice([998, 999, 1000])
+                over = r.choice([b"\x01\x07", b"\x02\x07\x07", b"\x4c\x01\x07", b"\x57", b"\x00", b"\x76", b"\x6e", b"\x6f"])
+                n_over = r.choice([1, 2, 3])
+                spk = b"\x51" * base + over * n_over + b"\x75" * (n_over + r.choice([0, 1, 2])) + r.choice([b"", b"\x51"])
+                tag = f"limit:stack-transient:{base}"
         elif kind == 4:  # 10000 / 10001-byte scripts
             n = r.choice([9999, 10000, 10001])
             spk = b"\x51" + push_data(bytes(255)) * 38 + b"\x75" * 38
